@@ -16,6 +16,7 @@ fi
 if ! bin/mkoverlay /repo $OVDIR shim hooks > .work/mkoverlay-$ID.log 2>&1; then
   echo "HARNESS ERROR: overlay generation failed"; tail -20 .work/mkoverlay-$ID.log; exit 2
 fi
+if [ "$(jq -r '.TryLocks // 0' $OVDIR/stats.json 2>/dev/null)" != 0 ]; then TAGS="$TAGS vtrylock"; fi
 if ! go1.26 build -tags "$TAGS" $RACE -overlay $OVDIR/overlay.json -o $BIN ./cmd/vhs 2> .work/build-vhs-$ID.log; then
   echo "HARNESS ERROR: cannot build instrumented harness against /repo (harness cannot bind to code)"; tail -30 .work/build-vhs-$ID.log
   [ -n "${VERIF_OVERLAY:-}" ] && rm -rf $OVDIR $BIN
